@@ -13,7 +13,7 @@
     * `refresh_eq`, `refresh_ok`, `refresh_adopts_only_announced`, `refresh_panic_unchanged`   the state changes only by adopting
                                   the topology whose ciphertext hashes to the (non-empty) hash of the last announced event and
                                   which decrypts/parses with threshold ≥ 1 and could be stored; otherwise nothing changes;
-    * `run_last_accepted`, `consistent_run`, `admission_after_run`   over any sequence of refresh calls the state is that of the
+    * `run_last_accepted`, `run_in_announced`, `consistent_run`, `admission_after_run`, `admission_is_gate`   over any sequence of refresh calls the state is that of the
                                   last accepted one, the admission list and the dial targets are exactly the stored topology's peers.
   ASSUMED / NOT PROVED: libp2p consults `InterceptSecured` for every connection and `Conn().RemotePeer()` is the
   noise-authenticated peer (exercised with two real hosts in the thorough tier); `json:"-"` keeps `encoding/json` from
@@ -221,6 +221,22 @@ theorem run_last_accepted (e : Env) (st : St) (evs : List Ev) :
     | some t => simp
     | none => cases h2 : adoptable e ev <;> simp [h2]
 
+/-- the weaker form the driver evaluates on the implementation's final state after a sequence (op `refreshseq`):
+    unchanged, or the adoption of a topology that one of the calls was entitled to adopt -/
+theorem run_in_announced (e : Env) (st : St) (evs : List Ev) :
+    run e st evs = st ∨ ∃ ev ∈ evs, ∃ t, adoptable e ev = some t ∧ run e st evs = adopt t := by
+  induction evs generalizing st with
+  | nil => exact Or.inl rfl
+  | cons ev evs ih =>
+    have hrun : run e st (ev :: evs) = run e (refresh e st ev).1 evs := rfl
+    rw [hrun]
+    rcases ih (refresh e st ev).1 with h | ⟨ev', hm, t, ha, hr⟩
+    · rw [h, refresh_eq]
+      cases ha : adoptable e ev with
+      | none => exact Or.inl rfl
+      | some t => exact Or.inr ⟨ev, by simp, t, ha, rfl⟩
+    · exact Or.inr ⟨ev', by simp [hm], t, ha, hr⟩
+
 /-- the three components never drift apart: file, admission list and dial targets describe one topology -/
 def Consistent (st : St) : Prop := ∃ t, st.stored = some t ∧ st.gate = canon t.peers ∧ st.pstore = canon t.peers
 
@@ -236,6 +252,14 @@ theorem admission_after_run (e : Env) (st : St) (evs : List Ev) (h : Consistent 
   obtain ⟨t, h1, h2, _⟩ := consistent_run e st evs h
   refine ⟨t, h1, ?_⟩
   simp [St.admits, h2, mem_canon]
+
+/-- … and that admission is what the gater's hooks compute from the stored topology, in both directions -/
+theorem admission_is_gate (e : Env) (st : St) (evs : List Ev) (h : Consistent st) (p : PeerId) (d : Dir) :
+    ∃ t, (run e st evs).stored = some t ∧ ((run e st evs).admits p = connAllowed t d p) := by
+  obtain ⟨t, h1, h2⟩ := admission_after_run e st evs h p
+  refine ⟨t, h1, ?_⟩
+  have hc := conn_only_members t d p
+  cases ha : (run e st evs).admits p <;> cases hb : connAllowed t d p <;> simp_all
 
 /-! ### non-vacuity -/
 
